@@ -12,6 +12,7 @@ extern crate rustc_hir;
 extern crate rustc_index;
 extern crate rustc_interface;
 extern crate rustc_middle;
+extern crate rustc_parse;
 extern crate rustc_session;
 extern crate rustc_span;
 
@@ -910,8 +911,10 @@ impl<'tcx> Cx<'tcx> {
             }
             v.into_iter().map(J::s).collect()
         };
+        let cfg_sites = cfg_inventory(tcx);
         J::obj()
             .fs("crate", krate)
+            .f("cfg_sites", J::Arr(cfg_sites))
             .f("cfg", J::Arr(cfgs))
             .f("fns", J::Arr(fns))
             .f("impls", J::Arr(impls))
@@ -921,4 +924,190 @@ impl<'tcx> Cx<'tcx> {
             .f("adts", J::Arr(adts))
             .done()
     }
+}
+
+
+// ------------------------------------------------------------------------------------------------
+// cfg inventory from an UNEXPANDED parse of every local source file
+
+fn cfg_inventory<'tcx>(tcx: TyCtxt<'tcx>) -> Vec<J> {
+    use rustc_ast as ast;
+    use rustc_ast::visit::{self, Visitor};
+    let sm = tcx.sess.source_map();
+    let mut paths: Vec<std::path::PathBuf> = Vec::new();
+    for f in sm.files().iter() {
+        if let rustc_span::FileName::Real(r) = &f.name {
+            if let Some(p) = r.local_path() {
+                let ps = p.to_string_lossy().to_string();
+                if ps.ends_with(".rs") && !ps.contains("/rustlib/") && !ps.contains("/.cargo/") && f.cnum == rustc_hir::def_id::LOCAL_CRATE {
+                    paths.push(p.to_path_buf());
+                }
+            }
+        }
+    }
+    paths.sort();
+    paths.dedup();
+    struct V<'a> {
+        sm: &'a rustc_span::source_map::SourceMap,
+        file: String,
+        stack: Vec<String>,
+        out: Vec<J>,
+    }
+    impl<'a> V<'a> {
+        fn note(&mut self, attrs: &[ast::Attribute], kind: &str, name: &str) {
+            for a in attrs {
+                let is_cfg = a.has_name(rustc_span::sym::cfg);
+                let is_cfg_attr = a.has_name(rustc_span::sym::cfg_attr);
+                if is_cfg || is_cfg_attr {
+                    let lo = self.sm.lookup_char_pos(a.span.lo());
+                    let text = rustc_ast_pretty::pprust::attribute_to_string(a);
+                    self.out.push(
+                        J::obj()
+                            .fs("file", self.file.clone())
+                            .fi("line", lo.line as i128)
+                            .fs("node", kind)
+                            .fs("name", name)
+                            .fs("enclosing", self.stack.join("::"))
+                            .fs("attr", if is_cfg { "cfg" } else { "cfg_attr" })
+                            .fb("inner", matches!(a.style, ast::AttrStyle::Inner))
+                            .fs("text", text)
+                            .done(),
+                    );
+                }
+            }
+        }
+    }
+    fn item_name(i: &ast::Item) -> String {
+        match &i.kind {
+            ast::ItemKind::Impl(imp) => {
+                let t = rustc_ast_pretty::pprust::ty_to_string(&imp.self_ty);
+                match &imp.of_trait {
+                    Some(tr) => format!("impl {} for {}", rustc_ast_pretty::pprust::path_to_string(&tr.trait_ref.path), t),
+                    None => format!("impl {}", t),
+                }
+            }
+            other => other.ident().map(|x| x.name.to_string()).unwrap_or_else(|| "_".to_string()),
+        }
+    }
+    impl<'a, 'ast> Visitor<'ast> for V<'a> {
+        fn visit_item(&mut self, i: &'ast ast::Item) {
+            let n = item_name(i);
+            let kind = match &i.kind {
+                ast::ItemKind::Use(..) => "use",
+                ast::ItemKind::Mod(..) => "mod",
+                ast::ItemKind::ExternCrate(..) => "extern_crate",
+                ast::ItemKind::MacroDef(..) => "macro_def",
+                ast::ItemKind::MacCall(..) => "mac_call",
+                _ => "item",
+            };
+            self.note(&i.attrs, kind, &n);
+            self.stack.push(n);
+            visit::walk_item(self, i);
+            self.stack.pop();
+        }
+        fn visit_assoc_item(&mut self, i: &'ast ast::AssocItem, ctxt: visit::AssocCtxt) {
+            let n = i.kind.ident().map(|x| x.name.to_string()).unwrap_or_else(|| "_".to_string());
+            self.note(&i.attrs, "assoc_item", &n);
+            self.stack.push(n);
+            visit::walk_assoc_item(self, i, ctxt);
+            self.stack.pop();
+        }
+        fn visit_field_def(&mut self, f: &'ast ast::FieldDef) {
+            let n = f.ident.map(|x| x.name.to_string()).unwrap_or_default();
+            self.note(&f.attrs, "field", &n);
+            visit::walk_field_def(self, f);
+        }
+        fn visit_expr_field(&mut self, f: &'ast ast::ExprField) {
+            self.note(&f.attrs, "expr_field", &f.ident.name.to_string());
+            visit::walk_expr_field(self, f);
+        }
+        fn visit_variant(&mut self, v: &'ast ast::Variant) {
+            self.note(&v.attrs, "variant", &v.ident.name.to_string());
+            visit::walk_variant(self, v);
+        }
+        fn visit_arm(&mut self, a: &'ast ast::Arm) {
+            self.note(&a.attrs, "arm", "");
+            visit::walk_arm(self, a);
+        }
+        fn visit_stmt(&mut self, s: &'ast ast::Stmt) {
+            match &s.kind {
+                ast::StmtKind::Let(l) => self.note(&l.attrs, "stmt", ""),
+                ast::StmtKind::Expr(e) | ast::StmtKind::Semi(e) => self.note(&e.attrs, "stmt", ""),
+                ast::StmtKind::MacCall(m) => self.note(&m.attrs, "stmt", ""),
+                _ => {}
+            }
+            visit::walk_stmt(self, s);
+        }
+        fn visit_expr(&mut self, e: &'ast ast::Expr) {
+            // statement-level expression attributes are reported by visit_stmt; report the rest (e.g. call arguments)
+            visit::walk_expr(self, e);
+        }
+        fn visit_param(&mut self, p: &'ast ast::Param) {
+            self.note(&p.attrs, "param", "");
+            visit::walk_param(self, p);
+        }
+    }
+    let mut out = Vec::new();
+    for p in paths {
+        let psess = &tcx.sess.psess;
+        let parsed = std::panic::catch_unwind(std::panic::AssertUnwindSafe(|| {
+            match rustc_parse::new_parser_from_file(psess, &p, rustc_parse::lexer::StripTokens::Nothing, None) {
+                Ok(mut parser) => match parser.parse_crate_mod() {
+                    Ok(k) => Some(k),
+                    Err(d) => {
+                        d.cancel();
+                        None
+                    }
+                },
+                Err(ds) => {
+                    for d in ds {
+                        d.cancel();
+                    }
+                    None
+                }
+            }
+        }));
+        if let Ok(Some(krate)) = parsed {
+            let mut v = V { sm, file: p.to_string_lossy().to_string(), stack: Vec::new(), out: Vec::new() };
+            v.note(&krate.attrs, "crate", "");
+            for it in krate.items.iter() {
+                v.visit_item(it);
+            }
+            // expression-level attributes that are not statements (call arguments etc.)
+            struct EV<'b, 'a> {
+                v: &'b mut V<'a>,
+            }
+            impl<'b, 'a, 'ast> Visitor<'ast> for EV<'b, 'a> {
+                fn visit_item(&mut self, i: &'ast ast::Item) {
+                    self.v.stack.push(item_name(i));
+                    visit::walk_item(self, i);
+                    self.v.stack.pop();
+                }
+                fn visit_assoc_item(&mut self, i: &'ast ast::AssocItem, ctxt: visit::AssocCtxt) {
+                    self.v.stack.push(i.kind.ident().map(|x| x.name.to_string()).unwrap_or_else(|| "_".to_string()));
+                    visit::walk_assoc_item(self, i, ctxt);
+                    self.v.stack.pop();
+                }
+                fn visit_stmt(&mut self, s: &'ast ast::Stmt) {
+                    // skip the statement's own expression attrs (already reported) but walk inside
+                    match &s.kind {
+                        ast::StmtKind::Expr(e) | ast::StmtKind::Semi(e) => visit::walk_expr(self, e),
+                        _ => visit::walk_stmt(self, s),
+                    }
+                }
+                fn visit_expr(&mut self, e: &'ast ast::Expr) {
+                    self.v.note(&e.attrs, "expr", "");
+                    visit::walk_expr(self, e);
+                }
+            }
+            {
+                let mut ev = EV { v: &mut v };
+                for it in krate.items.iter() {
+                    ev.visit_item(it);
+                }
+            }
+            out.extend(v.out);
+        }
+    }
+    out
 }
